@@ -387,6 +387,163 @@ theorem pyBind_pos_eq_name (s : Sig N V T) (hnd : ((s.pos ++ s.kos).map (·.name
       simp only [List.lookup_cons, hb]
       rw [ih args v kw p (fun r hr => hsub r (by simp [hr])) hn.2 hidx hpo hl]
 
+theorem bindPos_given_none (kw : List (N × V)) (ps : List (Param N V T)) :
+    ∀ (args : List V) (v : V) (p : Param N V T) (b : List V), ps[args.length]? = some p → p.posOnly = false →
+    bindPos kw ps (args ++ [v]) = some b → kw.lookup p.name = none := by
+  induction ps with
+  | nil => intro args v p b h; simp at h
+  | cons q ps ih =>
+    intro args v p b hidx hpo hb
+    cases args with
+    | nil =>
+      simp only [List.length_nil, List.getElem?_cons_zero, Option.some.injEq] at hidx
+      subst hidx
+      simp only [List.nil_append] at hb
+      unfold bindPos at hb
+      split at hb
+      · cases hb
+      · rename_i hc
+        cases hl : kw.lookup q.name with
+        | none => rfl
+        | some _ => simp [hpo, hl] at hc
+    | cons a args =>
+      simp only [List.length_cons, List.getElem?_cons_succ] at hidx
+      simp only [List.cons_append] at hb
+      unfold bindPos at hb
+      split at hb
+      · cases hb
+      · cases hb' : bindPos kw ps (args ++ [v]) with
+        | none => simp [hb'] at hb
+        | some b' => exact ih args v p b' hidx hpo hb'
+
+theorem bindKos_cons_irrelevant (kw : List (N × V)) (k : N) (v : V) (ks : List (Param N V T))
+    (h : k ∉ ks.map (·.name)) : bindKos ((k, v) :: kw) ks = bindKos kw ks := by
+  induction ks with
+  | nil => rfl
+  | cons q ks ih =>
+    simp only [List.map_cons, List.mem_cons, not_or] at h
+    rw [bindKos, bindKos, ih h.2]
+    have : (q.name == k) = false := by simpa using fun h' => h.1 h'.symm
+    simp [List.lookup_cons, this]
+
+/-- … on Python's whole binding … -/
+theorem pyBindCore_pos_eq_name (s : Sig N V T) (hnd : ((s.pos ++ s.kos).map (·.name)).Nodup)
+    (args : List V) (v : V) (kw : List (N × V)) (p : Param N V T)
+    (hidx : s.pos[args.length]? = some p) (hpo : p.posOnly = false) (hl : kw.lookup p.name = none) :
+    pyBindCore s (args ++ [v]) kw = pyBindCore s args ((p.name, v) :: kw) := by
+  have hlt : args.length < s.pos.length := by
+    rcases Nat.lt_or_ge args.length s.pos.length with h | h
+    · exact h
+    · rw [List.getElem?_eq_none h] at hidx; cases hidx
+  have hpmem : p ∈ s.pos := List.mem_of_getElem? hidx
+  rw [List.map_append, List.nodup_append] at hnd
+  have hbp := pyBind_pos_eq_name s (by rw [List.map_append, List.nodup_append]; exact hnd) s.pos args v kw p
+    (fun q hq => hq) hnd.1 hidx hpo hl
+  have hbk : bindKos ((p.name, v) :: kw) s.kos = bindKos kw s.kos := by
+    apply bindKos_cons_irrelevant
+    intro hm
+    exact hnd.2.2 _ (List.mem_map_of_mem hpmem) _ hm rfl
+  have htgt : s.kwTarget p.name = true :=
+    (kwTarget_iff s _).mpr ⟨p, (mem_kwParams s p).mpr (Or.inl ⟨hpmem, hpo⟩), rfl⟩
+  unfold pyBindCore
+  have c1 : (s.pos.length < (args ++ [v]).length) = False := by simp; omega
+  have c2 : (s.pos.length < args.length) = False := by simp; omega
+  have d1 : (args ++ [v]).drop s.pos.length = [] := List.drop_eq_nil_of_le (by simp; omega)
+  have d2 : args.drop s.pos.length = [] := List.drop_eq_nil_of_le (by omega)
+  simp only [c1, c2, hbp, hbk, d1, d2, List.filter_cons, htgt, Bool.not_true, Bool.false_eq_true, if_false]
+
+theorem convArgs_snoc (W : World N V T) (vpT : Option T) (ps : List (Param N V T)) :
+    ∀ (args : List V) (v : V) (p : Param N V T), ps[args.length]? = some p →
+    Spec.convArgs W vpT ps (args ++ [v])
+      = match Spec.convArgs W vpT ps args, Spec.convO W p.ann v with
+        | some a, some v' => some (a ++ [v'])
+        | _, _ => none := by
+  induction ps with
+  | nil => intro args v p h; simp at h
+  | cons q ps ih =>
+    intro args v p hidx
+    cases args with
+    | nil =>
+      simp only [List.length_nil, List.getElem?_cons_zero, Option.some.injEq] at hidx
+      subst hidx
+      simp only [List.nil_append, Spec.convArgs]
+      cases Spec.convO W q.ann v <;> simp [Spec.convArgs]
+    | cons a args =>
+      simp only [List.length_cons, List.getElem?_cons_succ] at hidx
+      simp only [List.cons_append, Spec.convArgs, ih args v p hidx]
+      cases Spec.convO W q.ann a <;> cases Spec.convArgs W vpT ps args <;> cases Spec.convO W p.ann v <;> simp
+
+/-- **by position or by name**: a positional-or-keyword parameter passed as the next positional argument, or under its
+own name, gives the same outcome (and by `C08_alias_equiv` under any accepted spelling). -/
+theorem C08_by_name_eq_by_pos (W : World N V T) (hW : LowerIdem W) (s : Sig N V T) (wf : WF W s) (o : Opts)
+    (args : List V) (v : V) (kw : List (N × V)) (p : Param N V T) (out : Outcome N V)
+    (hidx : s.pos[args.length]? = some p) (hpo : p.posOnly = false) (hpriv : W.priv p.name = false)
+    (hd : KnownDefect.privateKw W s kw = false) (ha : KnownDefect.privateAnnotated W s = false)
+    (hexp : Spec.expected W s (args ++ [v]) kw = some out) :
+    call W s o (args ++ [v]) kw = out ∧ call W s o args ((p.name, v) :: kw) = out := by
+  have hpmem : p ∈ s.pos := List.mem_of_getElem? hidx
+  have hkwp : p ∈ Spec.kwParams s := (mem_kwParams s p).mpr (Or.inl ⟨hpmem, hpo⟩)
+  have hpf : p ∈ s.fields W := (mem_fields W s p).mpr ⟨List.mem_append_left _ hpmem, hpriv⟩
+  have hne : p.name ∉ s.excludeVars W := by
+    intro hm
+    unfold Sig.excludeVars at hm
+    have := (List.mem_filter.mp hm).2
+    rw [hpriv] at this; cases this
+  have hd' : KnownDefect.privateKw W s ((p.name, v) :: kw) = false := by
+    unfold KnownDefect.privateKw at hd ⊢
+    simp only [List.any_cons, hd, Bool.or_false]
+    simpa using hne
+  -- the name normalises to itself
+  have hself : Spec.normKey W s p.name = p.name := by
+    have hacc : Spec.accepted W p p.name = true := by unfold Spec.accepted; simp
+    have hm : Matches W p p.name := (accepted_iff W hW p p.name).mp hacc
+    exact (key_field W hW s wf p.name hne p (resolve_of_matches W hW s wf p.name p hpf hm) hpo).1
+  have hnorm : Spec.normalise W s ((p.name, v) :: kw) = (p.name, v) :: Spec.normalise W s kw := by
+    simp [Spec.normalise, hself]
+  have hann : Spec.annOfKey s p.name = p.ann := annOfKey_field W hW s wf p hkwp
+  have hexp0 := hexp
+  unfold Spec.expected at hexp
+  simp only at hexp
+  cases hpb : Spec.pyBind s (args ++ [v]) (Spec.normalise W s kw) with
+  | none => simp [hpb] at hexp
+  | some b0 =>
+    simp only [hpb] at hexp
+    unfold Spec.pyBind at hpb
+    split at hpb
+    · rename_i hn
+      obtain ⟨_, ⟨bp, hbp⟩, _, _⟩ := pyBindCore_some s _ _ b0 hpb
+      have hl : (Spec.normalise W s kw).lookup p.name = none := bindPos_given_none _ s.pos args v p bp hidx hpo hbp
+      have hnk : p.name ∉ (Spec.normalise W s kw).map (·.1) := (lookup_eq_none_iff_not_mem _ _).mp hl
+      have hexp' : Spec.expected W s args ((p.name, v) :: kw) = some out := by
+        unfold Spec.expected
+        simp only [hnorm]
+        have hpb' : Spec.pyBind s args ((p.name, v) :: Spec.normalise W s kw) = some b0 := by
+          unfold Spec.pyBind
+          have : (((p.name, v) :: Spec.normalise W s kw).map (·.1)).Nodup := by
+            simp only [List.map_cons, List.nodup_cons]; exact ⟨hnk, hn⟩
+          simp only [this, if_true]
+          rw [← pyBindCore_pos_eq_name s wf.names_nodup args v _ p hidx hpo hl]; exact hpb
+        simp only [hpb', Spec.convKw, hann]
+        rw [convArgs_snoc W _ s.pos args v p hidx] at hexp
+        cases hca : Spec.convArgs W (s.vp.bind (·.2)) s.pos args with
+        | none => simp only [hca] at hexp ⊢; cases Spec.convO W p.ann v <;> simpa using hexp
+        | some a =>
+          cases hcv : Spec.convO W p.ann v with
+          | none => simp only [hca, hcv] at hexp ⊢; simpa using hexp
+          | some v' =>
+            cases hck : Spec.convKw W s (Spec.normalise W s kw) with
+            | none => simp only [hca, hcv, hck] at hexp ⊢; simpa using hexp
+            | some ck =>
+              simp only [hca, hcv, hck] at hexp ⊢
+              have halen : a.length = args.length := convArgs_length W _ s.pos args a hca
+              have hckl : ck.lookup p.name = none := by
+                rw [lookup_eq_none_iff_not_mem, convKw_keys W s _ ck hck]; exact hnk
+              rw [← pyBindCore_pos_eq_name s wf.names_nodup a v' ck p (by rw [halen]; exact hidx) hpo hckl]
+              exact hexp
+      exact ⟨C08_binding_partial W hW s wf o _ kw out hd ha hexp0,
+        C08_binding_partial W hW s wf o args _ out hd' ha hexp'⟩
+    · cases hpb
+
 /-! ### witnesses: the full statement is false of the code, the hypotheses are satisfiable -/
 
 /-- a concrete world: names, values and types are numbers; names ≥ 1000 are private; `lower` folds 500-999 onto
